@@ -26,7 +26,8 @@ type w2Opts struct {
 	preStart func(w *World) // after the world exists, before the first node starts
 }
 
-var c12Keys = []string{"a", "b", "c", "d", "k/1", "k/2", "k/3", "k/1/x", "k/1/y", "k/2/x", "/", "/a", "a/", "m-n", "z", "zz/top/deep/er"}
+var c12Keys = []string{"a", "b", "c", "d", "k/1", "k/2", "k/3", "k/1/x", "k/1/y", "k/2/x", "/", "/a", "a/", "m-n", "z", "zz/top/deep/er",
+	"tenant-alpha/cfg", "tenant-alpha/x", "zookeeper-1/leader"} // first path element longer than the 8 bytes the engine abbreviates batch keys to
 
 // w2Workload drives a single-shard node and checks every response against the model.
 type w2Workload struct {
